@@ -1198,6 +1198,35 @@ func (h *vipHarness) exec(c vipCmd) map[string]interface{} {
 			res = in.sm.DeliverAckToShardOwner(vipShard(c.S), a, channel.NewShutdownOnce(), log.NewNoopLogger(), id, true)
 		}
 		ev["result"], ev["ms"] = res, time.Since(t0).Milliseconds()
+		if res && !ownerHas && c.A == "RouteAck" {
+			// the forwarder's send succeeded but the recorded owner has no local ack channel for the source shard: wait (bounded)
+			// until the owner's end of the stream has read it - what it does with it (ends the stream / goes on) shows in the snapshot
+			deadline := time.Now().Add(h.wait)
+			for {
+				got, serving := false, false
+				h.mu.Lock()
+				if o, ok := h.inst[owner]; ok {
+					for _, w := range o.streams {
+						if w.origin == c.I && w.t == c.T && w.s == c.S {
+							for _, x := range w.recvd {
+								if x == id {
+									got = true
+								}
+							}
+							if w.state == "serve" && w.ctx.Err() == nil {
+								serving = true
+							}
+						}
+					}
+				}
+				h.mu.Unlock()
+				if got || !serving || time.Now().After(deadline) {
+					ev["received"] = got
+					break
+				}
+				time.Sleep(100 * time.Microsecond)
+			}
+		}
 		if res && ownerHas && stalled {
 			// the consumer is stalled: the entry stays in the channel / the stream until it is released (checked at Unstall)
 			ownerLocal.mu.Lock()
